@@ -214,3 +214,46 @@ def _(c):
     c.fieldspec("alias", "val")
     c.ensures("implies(not (isa(other, TypeAliasValue) and self.alias is other.alias), result is other.can_assign(self.get_value(), ctx))", name="delegates_to_the_aliased_type")
     c.ensures("implies(not (isa(other, TypeAliasValue) and self.alias is other.alias) and not is_error(result) and static(self) and static(other), subset(self, other))", name="sound")
+
+
+@contract("pyanalyze.value.TypedDictValue.can_assign", props=P)
+def _(c):
+    c.returns("val")
+    c.functional = True
+    c.fn_name = "can_assign"
+    c.fieldspec("items", "dict[str,obj:TypedDictEntry]")
+    c.fieldspec("required", "bool")
+    c.fieldspec("readonly", "bool")
+    c.fieldspec("extra_keys_readonly", "bool")
+    c.fieldspec("extra_keys", "val")
+    c.fieldspec("typ", "val")
+    c.fieldspec("kv_pairs", "seq")
+    c.fieldspec("val", "val")
+    c.callee("unify_bounds_maps", lambda k: (k.param("maps", "seq"), k.returns("val"), k.ensures("not is_error(result)")))
+    c.callee("TypedValue", lambda k: (k.param("t", "val"), k.returns("obj:TypedValue"), setattr(k, "functional", True), setattr(k, "fn_name", "new_TypedValue"), k.ensures("result.typ is t")))
+    c.callee("super().can_assign", lambda k: (k.param("other", "val"), k.param("ctx", "val"), k.returns("val")))
+    c.callee("other.get_value", lambda k: (k.param("self", "val"), k.param("key", "val"), k.param("ctx", "val"), k.returns("val")))
+    c.callee("flatten_values", lambda k: (k.param("v", "val"), k.param("unwrap_annotated", "val"), k.returns("seq")))
+    c.callee("KnownValue", lambda k: (k.param("v", "val"), k.returns("obj:KnownValue")))
+    c.ignore_exceptions += ["ValueError"]   # `for key, value in other.val.items()` in the dict-literal branch (outside the specified scope): items() yields pairs
+    # scope of the specification: another TypedDict type on the right (PEP 589 / 705 structural rules)
+    td = "(isa(other, TypedDictValue) and not isa(other, DictIncompleteValue))"
+    ex = "(other.extra_keys or TypedValue(object))"
+    missing_ok = f"(not self.items[k].required and self.items[k].readonly and not is_error(self.items[k].typ.can_assign({ex}, ctx)))"
+    present_ok = ("(not (self.items[k].required and not other.items[k].required)"
+                  " and not (not self.items[k].required and not self.items[k].readonly and other.items[k].required)"
+                  " and not (not self.items[k].readonly and other.items[k].readonly)"
+                  " and not is_error(self.items[k].typ.can_assign(other.items[k].typ, ctx))"
+                  " and (self.items[k].readonly or not is_error(other.items[k].typ.can_assign(self.items[k].typ, ctx))))")
+    key_ok = f"ite(k in other.items, {present_ok}, {missing_ok})"
+    keys = "list(self.items)"
+    for i in (0, 1, 2, 4, 5, 6):
+        c.loop(i, invariant="True")
+    c.loop(3, invariant=[("keys_so_far_satisfy_the_structural_rules", f"all((lambda k: {key_ok})({keys}[j]) for j in range(_k3))")])
+    extra_ok = (f"(not (not self.extra_keys_readonly and other.extra_keys_readonly) and (self.extra_keys is None or (not is_error(self.extra_keys.can_assign({ex}, ctx))"
+                f" and (self.extra_keys_readonly or not is_error({ex}.can_assign(self.extra_keys, ctx))))))")
+    c.ensures(f"implies({td}, (not is_error(result)) == (all((lambda k: {key_ok})(k) for k in self.items) and {extra_ok}))",
+              name="a_typed_dict_is_accepted_iff_every_key_and_the_extra_keys_satisfy_the_structural_rules")
+    c.assume("scope: the TypedDict-vs-TypedDict branch (dict displays and dict literals on the right are covered by the bounded type-pair check only); "
+             "rules per key: a key missing on the right must be non-required, read-only and typed to accept the right's extra-keys type; a present key must not weaken "
+             "requiredness, must not be read-only where ours is mutable, must be covariant, and invariant when ours is mutable")
